@@ -85,6 +85,12 @@ pub struct Ctx {
     calls: u32,
 }
 
+thread_local! {
+    /// long pauses (1.2 million ledgers before every sixth call) in worlds created by this thread; switched off for
+    /// walks marked `"aging": "A"` (flip walks: accepted a moment ago, refused now)
+    pub static LONG_PAUSES: std::cell::Cell<bool> = std::cell::Cell::new(true);
+}
+
 impl Ctx {
     pub fn new() -> Ctx {
         Ctx { env: new_env(), names: BTreeMap::new(), nonce: 1000, ev_seen: 0, ledger_step: 0, argdrop: None, calls: 0 }
@@ -175,7 +181,7 @@ impl Ctx {
         if self.ledger_step > 0 {
             self.calls += 1;
             let cur = self.env.ledger().sequence();
-            let by = if self.calls % 6 == 0 { 1_200_000 } else { self.ledger_step };
+            let by = if self.calls % 6 == 0 && LONG_PAUSES.with(|l| l.get()) { 1_200_000 } else { self.ledger_step };
             if cur + by <= 400_000_000 {
                 self.env.ledger().set_sequence_number(cur + by);
             }
